@@ -760,6 +760,45 @@ func (ts *TermStore) Ite(c, a, b *Term) *Term {
 			return ts.And(c, a)
 		}
 	}
+	// canonical integer max/min: ite(p<q, q, p) == ite(q<p, p, q) (equal when p == q); nested max/min chains are
+	// flattened and rebuilt over their leaves in a fixed order, so that folds in any association are identical terms
+	if (c.Op == OSLt || c.Op == OULt) && a.Sort.K == SBV {
+		p, q := c.Args[0], c.Args[1]
+		isMax := a == q && b == p
+		isMin := a == p && b == q
+		if isMax || isMin {
+			var leaves []*Term
+			ts.mmLeaves(p, c.Op, isMax, &leaves)
+			ts.mmLeaves(q, c.Op, isMax, &leaves)
+			// dedupe + sort by id
+			seen := map[int]bool{}
+			var u []*Term
+			for _, l := range leaves {
+				if !seen[l.id] {
+					seen[l.id] = true
+					u = append(u, l)
+				}
+			}
+			sortTermsByID(u)
+			acc := u[0]
+			for _, l := range u[1:] {
+				// acc has the smaller ids by construction
+				cc := ts.BvCmp(c.Op, acc, l)
+				if cc.IsConst() {
+					if cc.cBool() == isMax {
+						acc = l
+					}
+					continue
+				}
+				if isMax {
+					acc = ts.mk(OIte, a.Sort, 0, "", cc, l, acc)
+				} else {
+					acc = ts.mk(OIte, a.Sort, 0, "", cc, acc, l)
+				}
+			}
+			return acc
+		}
+	}
 	// ite(c, x, ite(c, y, z)) -> ite(c, x, z)
 	if b.Op == OIte && b.Args[0] == c {
 		return ts.Ite(c, a, b.Args[2])
@@ -1211,4 +1250,27 @@ func smtApp(t *Term, an []string) string {
 		panic(fmt.Sprintf("smtApp: op %d", t.Op))
 	}
 	return "(" + n + " " + j + ")"
+}
+
+// mmLeaves collects the leaves of a canonical max (isMax) or min chain built with comparison op.
+func (ts *TermStore) mmLeaves(t *Term, op Op, isMax bool, out *[]*Term) {
+	if t.Op == OIte && t.Args[0].Op == op {
+		p, q := t.Args[0].Args[0], t.Args[0].Args[1]
+		x, y := t.Args[1], t.Args[2]
+		// canonical max: ite(p<q, q, p) with p the chain, q the new leaf; min: ite(p<q, p, q)
+		if (isMax && x == q && y == p) || (!isMax && x == p && y == q) {
+			ts.mmLeaves(p, op, isMax, out)
+			ts.mmLeaves(q, op, isMax, out)
+			return
+		}
+	}
+	*out = append(*out, t)
+}
+
+func sortTermsByID(u []*Term) {
+	for i := 1; i < len(u); i++ {
+		for j := i; j > 0 && u[j-1].id > u[j].id; j-- {
+			u[j-1], u[j] = u[j], u[j-1]
+		}
+	}
 }
